@@ -473,6 +473,30 @@ def nested_axioms_module(rng: random.Random, syms=SYMS) -> Built:
     return Built(mod, {'nested_axioms'}, desc)
 
 
+def shared_definition_notations_module(rng: random.Random) -> Built:
+    """An imported module registers TWO notations with one and the same definition (the constructor and the cell spelling of one K
+    symbol); the importing module shows patterns of that shape.  Which of the two prints them is decided by the registration order."""
+    PR = repo.mod('proof')
+    P = repo.P()
+    K = repo.mod('proofs.kore')
+    f = P.Symbol(rng.choice(('foo', 'bar', 'cfg')))
+    n = rng.choice((1, 2, 3))
+    pair = [K.nary_app(f, n, False), K.nary_app(f, n, True)]
+    if rng.random() < 0.5:
+        pair.reverse()
+    extra = [P._and, P.neg, P._or]
+    rng.shuffle(extra)
+    lib = PR.ProofExp(notations=extra[:rng.randint(0, 3)] + pair)
+    args = [P.Symbol(x) for x in rng.sample(('a', 'b', 'c', 'd'), n)]
+    ax = pair[0](*args)
+    mod = PR.ProofExp(axioms=[ax, P.Implies(ax, P.neg(ax))])
+    mod.import_module(lib)
+    th = mod.load_axiom(ax)
+    mod.add_claim(th.conc)
+    mod.add_proof_expression(th)
+    return Built(mod, {'shared_definition_notations'}, [f'two notations over one definition: {pair[0].label}/{n}'], [(th, 'load_axiom')])
+
+
 def many_axioms_module(rng: random.Random) -> Built:
     """100-200 small axioms (the memoisation analysis and the one-byte memory indices meet their limits around 128 / 256 entries);
     the claims load a few of them, the last one included"""
